@@ -427,7 +427,7 @@ Proof.
     + exact HndA.
     + exact Hw.
     + intros i st Hi. apply in_elt_inv in Hi as [Hi|Hi].
-      * injection Hi as <- <-. fold h. rewrite Hdone. unfold st'. destruct r; reflexivity.
+      * injection Hi as E1 E2. rewrite E1, E2. fold h. rewrite Hdone. unfold st'. destruct r; reflexivity.
       * now apply Hqs.
     + exact Hd.
     + rewrite S3, S5. exact Hpend.
@@ -435,6 +435,215 @@ Proof.
     + now rewrite S6.
     + intros Hne. destruct (Hok Hne) as (Hr & He & Hf). rewrite S8, He.
       split; [destruct r; auto; congruence|].
-      rewrite Forall_forall in *. intros p Hp. apply in_elt_inv in Hp as [<-|Hp]; auto.
-      unfold st'. destruct r; cbn; auto.
+      rewrite Forall_forall in *. intros p Hp. apply in_elt_inv in Hp as [Hp|Hp]; auto.
+      rewrite Hp. unfold st'. destruct r; cbn; auto.
+Qed.
+
+(* ------------------------------------------------------------------ *)
+(* a request arrives *)
+
+Lemma NoDup_snoc {A} (l : list A) x : NoDup l -> ~ In x l -> NoDup (l ++ [x]).
+Proof.
+  induction l as [|y l IH]; intros H1 H2; cbn [app].
+  - constructor; [intros []|constructor].
+  - inversion H1 as [|? ? H3 H4]; subst. constructor.
+    + rewrite in_app_iff. cbn [In]. intros [H|[H|[]]]; [auto|]. apply H2. now left.
+    + apply IH; auto. intros H; apply H2; now right.
+Qed.
+
+Lemma pos_ok_push s s' gq id st :
+  pos_ok s gq -> base s' = base s -> base s < W64 -> N.of_nat (length gq) < W64 ->
+  (forall x, st = QWait x -> x = wadd (base s) (N.of_nat (length gq))) ->
+  pos_ok s' (gq ++ [(id, st)]).
+Proof.
+  intros Hp Hb Hlt Hl Hst j i x Hn. rewrite Hb.
+  apply nth_error_snoc in Hn as [Hn|[-> Hn]]; [now apply Hp in Hn|].
+  injection Hn as _ Hn. symmetry in Hn. apply Hst in Hn. subst x. now apply wsub_wadd.
+Qed.
+
+Lemma head_ok_push gq id st :
+  head_ok gq -> (gq = [] -> forall r, st <> QReady r) -> head_ok (gq ++ [(id, st)]).
+Proof.
+  destruct gq as [|[i [x|r|]] t]; cbn [app head_ok]; auto.
+  intros _ H. specialize (H eq_refl). destruct st; auto. now apply (H r).
+Qed.
+
+Lemma arrive_facts ops s gw gq o id now' :
+  Inv ops s gw gq -> ev_of_p o = EArrive id now' -> ~ In id (arrivals (hist ops)) ->
+  let h' := hist (ops ++ [o]) in
+  arrivals h' = arrivals (hist ops) ++ [id] /\
+  NoDup (arrivals h') /\
+  done_in id h' = now' /\
+  (forall i x, In (i, x) gw -> done_in i h' = Some (ans_of_p x)) /\
+  (forall i st, In (i, st) gq -> done_in i h' = st_done st) /\
+  (forall i, done_in i h' <> None -> In i (arrivals h')) /\
+  pend_after [] h' = match now' with None => id :: pend_after [] (hist ops) | Some _ => pend_after [] (hist ops) end /\
+  forallb no_err_p (ops ++ [o]) = forallb no_err_p ops && no_err_p o /\
+  ~ In id (map fst (spawned s)) /\
+  (forall st, ~ In (id, st) gq).
+Proof.
+  intros [Ib Iq Ih Ipos Ipan Iinl Isp Ind Ini Iarr IndA Iw Iqs Id Ipend Ilen Iout Iok] Ho Hfresh h'.
+  assert (Hh' : h' = hist ops ++ [EArrive id now']).
+  { unfold h', hist. rewrite map_app. cbn [map]. now rewrite Ho. }
+  assert (Hd0 : done_in id (hist ops) = None).
+  { destruct (done_in id (hist ops)) eqn:E; auto. exfalso. apply Hfresh, Id. congruence. }
+  assert (Harr' : arrivals h' = arrivals (hist ops) ++ [id]).
+  { rewrite Hh', arrivals_app. reflexivity. }
+  assert (Hoth : forall i, i <> id -> done_in i h' = done_in i (hist ops)).
+  { intros i Hi. rewrite Hh'. apply done_in_snoc_other. cbn [ev_id]. congruence. }
+  assert (Hgq : forall st, ~ In (id, st) gq).
+  { intros st Hin. apply Hfresh. rewrite Iarr. apply in_or_app. right.
+    apply in_map_iff. exists (id, st); auto. }
+  assert (Hgw : forall x, ~ In (id, x) gw).
+  { intros x Hin. apply Hfresh. rewrite Iarr. apply in_or_app. left.
+    apply in_map_iff. exists (id, x); auto. }
+  repeat split.
+  - exact Harr'.
+  - rewrite Harr'. now apply NoDup_snoc.
+  - rewrite Hh'. now apply done_in_snoc_arrive.
+  - intros i x Hi. rewrite Hoth; [now apply Iw|]. intros ->. now apply Hgw in Hi.
+  - intros i st Hi. rewrite Hoth; [now apply Iqs|]. intros ->. now apply Hgq in Hi.
+  - intros i Hi. rewrite Harr'. apply in_or_app.
+    destruct (N.eq_dec i id) as [->|Hne]; [right; now left|left].
+    apply Id. now rewrite <- Hoth.
+  - rewrite Hh', pend_after_snoc. destruct now'; reflexivity.
+  - rewrite forallb_app. cbn [forallb]. now rewrite andb_true_r.
+  - intros Hin. apply in_map_iff in Hin as ([i x] & E & Hin). cbn [fst] in E. subst i.
+    apply Isp in Hin. now apply Hgq in Hin.
+  - exact Hgq.
+Qed.
+
+(* the new request takes a slot at the back of the queue *)
+Lemma push_inv ops s gw gq o id now' st s' :
+  Inv ops s gw gq -> ev_of_p o = EArrive id now' ->
+  N.of_nat (length (ops ++ [o])) < W64 -> ~ In id (arrivals (hist ops)) ->
+  now' = st_done st ->
+  (forall x, st = QWait x -> x = wadd (base s) (N.of_nat (length gq))) ->
+  (gq = [] -> forall r, st <> QReady r) ->
+  (no_err_p o = true -> st_ok st) ->
+  base s' = base s -> queue s' = queue s ++ [slot_of (id, st)] -> out s' = out s ->
+  error s' = error s -> panicked s' = panicked s ->
+  (forall i, response s' = Some i -> In (i, QWait (response_idx s')) (gq ++ [(id, st)])) ->
+  (forall i x, In (i, x) (spawned s') -> In (i, QWait x) (gq ++ [(id, st)])) ->
+  NoDup (map fst (spawned s')) ->
+  (forall i, response s' = Some i -> ~ In i (map fst (spawned s'))) ->
+  (forall i, mem i (pend_after [] (hist (ops ++ [o]))) = true ->
+             response s' = Some i \/ In i (map fst (spawned s'))) ->
+  Inv (ops ++ [o]) s' gw (gq ++ [(id, st)]).
+Proof.
+  intros I Ho Hlen Hfresh Hnow Hst Hhd Hsok Eb Eq Eo Ee Ep Hinl Hsp Hnd Hni Hpend.
+  destruct (arrive_facts _ _ _ _ _ _ _ I Ho Hfresh) as (F1 & F2 & F3 & F4 & F5 & F6 & F7 & F8 & F9 & F10).
+  destruct I as [Ib Iq Ih Ipos Ipan Iinl Isp Ind Ini Iarr IndA Iw Iqs Id Ipend Ilen Iout Iok].
+  rewrite app_length in Hlen. cbn [length] in Hlen.
+  constructor; auto.
+  - now rewrite Eb.
+  - rewrite Eq, Iq, map_app. reflexivity.
+  - now apply head_ok_push.
+  - apply pos_ok_push with s; auto. lia.
+  - now rewrite Ep.
+  - rewrite F1, Iarr, map_app, app_assoc. reflexivity.
+  - intros i st0 Hi. apply in_app_or in Hi as [Hi|[Hi|[]]]; [now apply F5|].
+    injection Hi as <- <-. now rewrite F3.
+  - rewrite !app_length. cbn [length]. lia.
+  - now rewrite Eo.
+  - rewrite F8, Ee. intros Hne. apply andb_true_iff in Hne as [Hne1 Hne2].
+    destruct (Iok Hne1) as [He Hf]. split; auto.
+    apply Forall_app. split; auto.
+Qed.
+
+Lemma step_arrive ops s gw gq id now :
+  Inv ops s gw gq -> N.of_nat (length (ops ++ [Arrive id now])) < W64 ->
+  ~ In id (arrivals (hist ops)) ->
+  exists gw' gq', Inv (ops ++ [Arrive id now]) (arrive s id now) gw' gq'.
+Proof.
+  intros I Hlen Hfresh.
+  assert (Ho : ev_of_p (Arrive id now) = EArrive id (option_map ans_of_p now)) by reflexivity.
+  destruct (arrive_facts _ _ _ _ _ _ _ I Ho Hfresh) as (F1 & F2 & F3 & F4 & F5 & F6 & F7 & F8 & F9 & F10).
+  pose proof I as [Ib Iq Ih Ipos Ipan Iinl Isp Ind Ini Iarr IndA Iw Iqs Id Ipend Ilen Iout Iok].
+  assert (Hlq : lenN (queue s) = N.of_nat (length gq)).
+  { unfold lenN. now rewrite Iq, map_length. }
+  assert (Hlen' : N.of_nat (length gq) + 1 < W64).
+  { rewrite app_length in Hlen. cbn [length] in Hlen. lia. }
+  unfold arrive, call_service.
+  destruct (response s) as [i0|] eqn:Hr.
+  - destruct now as [r|].
+    + (* spawned, ready at its first poll: the spawned task completes right away *)
+      set (ridx := wadd (base s) (lenN (queue s))).
+      apply (mid _ (push_back s SPending) gw gq id ridx [] r); cbn [push_back base queue response
+        response_idx error spawned out panicked]; rewrite ?app_nil_r; auto.
+      * rewrite Iq, map_app. reflexivity.
+      * apply head_ok_push; auto. intros _ r0. discriminate.
+      * apply pos_ok_push with s; auto; [lia|]. intros x E. injection E as <-. unfold ridx. now rewrite Hlq.
+      * rewrite app_length. cbn [length]. lia.
+      * rewrite Hr. intros i E. injection E as <-. now apply Iinl.
+      * rewrite Hr. exact Ini.
+      * rewrite F1, Iarr, map_app, app_assoc. reflexivity.
+      * rewrite F7, Hr. exact Ipend.
+      * rewrite !app_length. cbn [length]. lia.
+      * rewrite F8. intros Hne. apply andb_true_iff in Hne as [Hne1 Hne2].
+        destruct (Iok Hne1) as [He Hf]. repeat split; auto. intros ->. discriminate.
+    + (* spawned, pending *)
+      exists gw, (gq ++ [(id, QWait (wadd (base s) (lenN (queue s))))]).
+      eapply push_inv with (s := s); eauto; cbn [push_back base queue response
+        response_idx error spawned out panicked slot_of snd]; auto.
+      * intros x E. injection E as <-. now rewrite Hlq.
+      * intros _ r0. discriminate.
+      * cbn. auto.
+      * rewrite Hr. intros i E. injection E as <-. apply in_or_app. left. now apply Iinl.
+      * intros i x Hi. apply in_or_app. apply in_app_or in Hi as [Hi|[Hi|[]]]; [left; now apply Isp|].
+        right. left. now injection Hi as <- <-.
+      * rewrite map_app. cbn [map fst]. now apply NoDup_snoc.
+      * rewrite Hr. intros i E Hi. injection E as <-. rewrite map_app in Hi.
+        apply in_app_or in Hi as [Hi|[Hi|[]]]; [now apply (Ini i0)|].
+        cbn [fst] in Hi. subst i0. exact (F10 _ (Iinl _ eq_refl)).
+      * rewrite F7. cbn [option_map mem]. intros i Hi. apply orb_true_iff in Hi as [Hi|Hi].
+        -- apply N.eqb_eq in Hi. subst i. right. rewrite map_app. apply in_or_app. right. now left.
+        -- apply Ipend in Hi as [Hi|Hi]; [left; congruence|].
+           right. rewrite map_app. apply in_or_app. now left.
+  - destruct now as [r|].
+    + rewrite Iq. destruct gq as [|q0 gq0]; cbn [map].
+      * (* nothing queued: written at once *)
+        exists (gw ++ [(id, r)]), []. constructor; auto.
+        -- now rewrite ai_base.
+        -- now rewrite ai_queue.
+        -- intros [|j] i x E; discriminate.
+        -- now rewrite ai_panicked.
+        -- rewrite ai_response, Hr. discriminate.
+        -- rewrite ai_spawned. exact Isp.
+        -- now rewrite ai_spawned.
+        -- rewrite ai_response, Hr. discriminate.
+        -- rewrite F1, Iarr, map_app. cbn [map fst]. now rewrite !app_nil_r.
+        -- intros i x Hi. apply in_app_or in Hi as [Hi|[Hi|[]]]; [now apply F4|].
+           injection Hi as <- <-. now rewrite F3.
+        -- intros i st [].
+        -- rewrite ai_response, ai_spawned, F7. exact Ipend.
+        -- cbn [length]. lia.
+        -- rewrite (ai_out _ _ id), Iout, flat_map_app. cbn [flat_map]. now rewrite app_nil_r.
+        -- rewrite F8, ai_error. intros Hne. apply andb_true_iff in Hne as [Hne1 Hne2].
+           destruct (Iok Hne1) as [He Hf]. split; auto. rewrite He. destruct r; auto; discriminate.
+      * (* something queued, no call inline: the result waits in a ready slot *)
+        exists gw, ((q0 :: gq0) ++ [(id, QReady r)]).
+        eapply push_inv with (s := s); eauto; cbn [push_back base queue response
+          response_idx error spawned out panicked slot_of snd]; auto.
+        -- discriminate.
+        -- discriminate.
+        -- cbn. destruct r; auto; discriminate.
+        -- now rewrite Iq.
+        -- rewrite Hr. discriminate.
+        -- intros i x Hi. apply in_or_app. left. now apply Isp.
+        -- rewrite Hr. discriminate.
+        -- rewrite F7. cbn [option_map]. rewrite Hr in Ipend. exact Ipend.
+    + (* no call inline: this one becomes the inline call *)
+      exists gw, (gq ++ [(id, QWait (wadd (base s) (lenN (queue s))))]).
+      eapply push_inv with (s := s); eauto; cbn [push_back base queue response
+        response_idx error spawned out panicked slot_of snd]; auto.
+      * intros x E. injection E as <-. now rewrite Hlq.
+      * intros _ r0. discriminate.
+      * cbn. auto.
+      * intros i E. injection E as <-. apply in_or_app. right. now left.
+      * intros i x Hi. apply in_or_app. left. now apply Isp.
+      * intros i E. injection E as <-. exact F9.
+      * rewrite F7. cbn [option_map mem]. intros i Hi. apply orb_true_iff in Hi as [Hi|Hi].
+        -- apply N.eqb_eq in Hi. subst i. now left.
+        -- apply Ipend in Hi as [Hi|Hi]; [congruence|now right].
 Qed.
